@@ -46,14 +46,14 @@ theorem dsExtend_ok (us : Units) (h : Heap) (d e : DS) (h' : Heap) (d' : DS)
     split at hfin
     · simp at hfin
     · rename_i acc1 s1 hloop
-      have hm : MemoGood (d.numObs + e.numObs) { heap := h } := by intro a v hav; simp at hav
+      have hm : MemoGood (d.numObs + e.numObs) { heap := h, conv := us.conv } := by intro a v hav; simp at hav
       have hf_rect := (rectFields_iff d.fields).mp hd
       have hg_rect := (rectFields_iff e.fields).mp he
       have inv0 : AccInv h d.numObs e.numObs (names d.fields) (fun _ => False) d.fields :=
         ⟨okd.nodup, fun c hc => ⟨okd.wff c hc, fun hx => absurd hx id,
           fun _ => ⟨hf_rect c hc, List.mem_map_of_mem hc⟩⟩⟩
       obtain ⟨⟨e1, m1⟩, inv1⟩ := loop1_spec us d.numObs e.numObs (names d.fields) e.fields (fun _ => False)
-        d.fields { heap := h } acc1 s1 hloop hm inv0
+        d.fields { heap := h, conv := us.conv } acc1 s1 hloop hm inv0
         (fun g hg => ⟨hg_rect g hg, oke.wff g hg⟩) oke.nodup (fun g _ hx => hx)
       obtain ⟨⟨e2, _⟩, hall, hnames⟩ := appendLoop_spec d.numObs e.numObs _ acc1 s1 fs' s2 hfin m1 (by
         intro c hc
@@ -432,13 +432,13 @@ theorem step_ok (w : W) (op : Op) (w' : W) (out : Out) (hs : step w op = .ok (w'
     simp only [step, Except.ok.injEq, Prod.mk.injEq] at hs
     obtain ⟨rfl, _⟩ := hs
     exact ⟨WOK.set ok (HeapExt.refl _) ⟨by simp [Rect, RectField.RectFields], ⟨by simp [names], by simp⟩⟩, HeapExt.refl _⟩
-  | obj k ndim cols rows other refPos =>
+  | obj k ndim cols rows other refPos tag =>
     simp only [step] at hs
     split at hs
     · rename_i o r _ _
       simp only [Except.ok.injEq, Prod.mk.injEq] at hs
       obtain ⟨rfl, _⟩ := hs
-      have e : HeapExt w.heap (w.heap ++ [({ kind := k, ndim := ndim, cols := cols, rows := rows, other := o, refPos := r } : Obj)]) :=
+      have e : HeapExt w.heap (w.heap ++ [({ kind := k, ndim := ndim, cols := cols, rows := rows, other := o, refPos := r, tag := tag } : Obj)]) :=
         ⟨⟨[_], rfl⟩⟩
       refine ⟨?_, e⟩
       intro i y hy
